@@ -37,18 +37,17 @@ theorem scanNApos_spec [NumOps N] (kw : List (Str × TK)) {st : LexState N} {pre
     ∃ r, scanApostropheNApostrophe st (ulen pre) = .ok (some r) ∧ ResOK kw st pre r := by
   unfold scanApostropheNApostrophe
   rcases scanForText_spec kw (text := str% "'n'") .apostropheNApostrophe hc.src_eq rfl hc.line
-      hc.small (by simp) (by decide) (by decide) (by decide) (by decide) (by decide) with
-    h | ⟨tok, post', h1, h2, h3, _, h5⟩
+      hc.small (by simp) (by decide) (by decide) (by decide) (by decide) (by decide) (by decide) with
+    h | ⟨tok, post', h1, h2, h3, _, h4, _, h5⟩
   · left; exact h
   · right
     refine ⟨_, h1, ResOK.simple (post := post') ?_ ?_ h5 ?_ rfl⟩
     · show st.src = pre ++ tok.spelling ++ post'
-      rw [hc.src_eq, h2, h3]; simp
+      rw [hc.src_eq, h2]; simp
     · show ulen pre + _ = ulen pre + ulen tok.spelling
       rw [h3]
     · show LineOK (st.line + 0) ((none : Option Nat).getD st.lineStart) (pre ++ tok.spelling)
-      rw [h3]
-      simpa using hc.line.append (NoNl_of_forall (q := str% "'n'") (by decide))
+      simpa using hc.line.append (NoNl_of_forall h4)
 
 /-- the dispatch on the start character: never a crash; either `continue` on an ignorable
     punctuation character / apostrophe, or a correct result -/
